@@ -4,7 +4,7 @@ import ast
 from ..core.model import AnchorError
 from ..core.cfg import walk_shallow, cfg_of
 from ..core.facts import U, atoms_of
-from ..engine import fn_name, kwarg, local_defs, returns_of, stmts_in, dict_items
+from ..engine import fn_name, kwarg, local_defs, returns_of, stmts_in, dict_items, vars_assigned_from, var_from_call
 from ..kinds import parity
 
 EXPLANATION = (
@@ -40,16 +40,20 @@ def s1(ctx, rep):
         raise AnchorError("PromotionRungSystem.on_task_schedule: marking / promotion dict not found")
     viol = [r for r in rn if cfg.path(cfg.entry, r, deleted=mk) is not None]
     call = ctx.calls_in(f, selfcall="_mark_as_promoted")[0][1]
-    args_ok = [U(a) for a in call.args[:2]] == ["rung", "pos"]
-    # rung / pos are those found by the scan
-    rd = [U(d) for d in local_defs(f, "rung") if not isinstance(d, tuple)]
-    args_ok = args_ok and "_rung" in rd
+    # the rung passed is the loop variable of the scan in which the hit was found; the position comes from that hit
+    loopv = [U(n.target) for n in walk_shallow(f.node) if isinstance(n, ast.For) and U(n.iter) == "self._rungs"]
+    hit = var_from_call(f, "_find_promotable_trial")
+    a0, a1 = (U(call.args[0]), U(call.args[1])) if len(call.args) >= 2 else ("?", "?")
+    rd = [U(d) for d in local_defs(f, a0) if not isinstance(d, tuple)]
+    pd = [d for d in local_defs(f, a1)]
+    args_ok = bool(loopv) and loopv[0] in rd and any((isinstance(d, tuple) and U(d[1]) == hit) or (not isinstance(d, tuple) and hit and hit in U(d)) for d in pd)
     rep.put(not viol and args_ok, "S1", "must_precede", "PromotionRungSystem.on_task_schedule: _mark_as_promoted(rung, pos) ≺ returning the promotion",
             f, call, "", "a trial can be returned for promotion without being marked as promoted: it is promoted again from the same rung")
     m = P.method("PromotionRungSystem", "_mark_as_promoted")
     cm = cfg_of(m)
+    ev = var_from_call(m, "pop") or "entry"
     asserts = [n for n in cm.nodes if n.kind == "stmt" and isinstance(n.ast, ast.Assert) and
-               ("truth", "entry.was_promoted", False) in atoms_of(n.ast.test, True)]
+               ("truth", f"{ev}.was_promoted", False) in atoms_of(n.ast.test, True)]
     sets = [n for n in cm.nodes if n.kind == "stmt" and isinstance(n.ast, ast.Assign) and U(n.ast.targets[0]).endswith(".was_promoted")
             and isinstance(n.ast.value, ast.Constant) and n.ast.value.value is True]
     readd = [n for n in cm.nodes if any(isinstance(x, ast.Call) and fn_name(x) == "add" and U(x.func.value) == "rung" for x in cm.node_walk(n.id))]
@@ -64,7 +68,12 @@ def s1(ctx, rep):
     for n in cfg.nodes:
         if n.id in rn:
             d = dict_items(n.ast.value)
-            ok = U(d.get("resume_from")) == "milestone" and U(d.get("milestone")) == "next_milestone" and U(d.get("trial_id")) == "trial_id"
+            # resume_from: the level of the rung where the hit was found; milestone: the level of the rung scanned before it
+            lv = vars_assigned_from(f, lambda v: bool(loopv) and U(v) == f"{loopv[0]}.level")
+            rf, ms_ = U(d.get("resume_from")), U(d.get("milestone"))
+            ok = bool(lv) and lv[0] in [U(x) for x in local_defs(f, rf) if not isinstance(x, tuple)] and \
+                lv[0] in [U(x) for x in local_defs(f, ms_) if not isinstance(x, tuple)] and \
+                "self._max_t" in [U(x) for x in local_defs(f, ms_) if not isinstance(x, tuple)]
     rep.put(ok, "S1", "agreement", "PromotionRungSystem.on_task_schedule: returns {trial_id, resume_from: rung level, milestone: next level}", f, None, "")
 
 
@@ -135,11 +144,13 @@ def s2(ctx, rep):
             f, cfg.nodes[acc[0]].ast if acc else None, "C(r,k) sums over all entries ranked <= k",
             "an entry can be skipped (or tested) before its cost is added to the running sum: promoted entries no longer count towards "
             "C(r, k), so a trial ranked behind expensive promoted ones is resumed although C(r, rank) > q * C(r, N)")
-    thr = [d for d in local_defs(f, "cost_threshold") if not isinstance(d, tuple)]
+    thn = vars_assigned_from(f, lambda v: "prom_quant" in U(v) and "sum(" in U(v))
+    accn = [U(cfg.nodes[a_].ast.target if isinstance(cfg.nodes[a_].ast, ast.AugAssign) else cfg.nodes[a_].ast.targets[0]) for a_ in acc]
+    thr = [d for d in local_defs(f, thn[0]) if not isinstance(d, tuple)] if thn else []
     ok = len(thr) == 1 and "sum(" in U(thr[0]) and "rung.data" in U(thr[0]) and "prom_quant" in U(thr[0]) and "if" not in U(thr[0])
     rep.put(ok, "S2", "agreement", "CostPromotionRungSystem: threshold = q * total cost of all entries of the rung", f, thr[0] if thr else None, "")
     brk = [n for n in cfg.nodes if n.kind == "stmt" and isinstance(n.ast, ast.Break)]
-    ok = any(("lt", "cost_threshold", "sum_costs") in ctx.facts(f).at(n.id) for n in brk)
+    ok = bool(thn) and bool(accn) and any(("lt", thn[0], accn[0]) in ctx.facts(f).at(n.id) for n in brk)
     rep.put(ok, "S2", "guarded_by", "CostPromotionRungSystem: the scan ends once the running cost exceeds the threshold", f, None, "")
 
 
@@ -147,22 +158,31 @@ def s3(ctx, rep):
     P = ctx.P
     f = P.method("PromotionRungSystem", "on_task_report")
     cfg = cfg_of(f)
+    rv = vars_assigned_from(f, lambda v: isinstance(v, ast.Subscript) and "_resource_attr" in U(v.slice))
+    mv = vars_assigned_from(f, lambda v: isinstance(v, ast.Subscript) and U(v.slice) == "'milestone'" and "_running" in U(v.value))
+    if len(rv) != 1 or len(mv) != 1:
+        raise AnchorError("PromotionRungSystem.on_task_report: resource / milestone variables not identified")
+    rv, mv = rv[0], mv[0]
     asserts = [n for n in cfg.nodes if n.kind == "stmt" and isinstance(n.ast, ast.Assert) and
-               ("eq", "milestone", "resource", True) in atoms_of(n.ast.test, True)]
-    ok = len(asserts) == 1 and ("le", "milestone", "resource") in ctx.facts(f).at(asserts[0].id)
+               any(a[0] == "eq" and a[3] is True and {a[1], a[2]} == {rv, mv} for a in atoms_of(n.ast.test, True))]
+    ok = len(asserts) == 1 and ("le", mv, rv) in ctx.facts(f).at(asserts[0].id)
     rep.put(ok, "S3", "guarded_by", "PromotionRungSystem.on_task_report: assert resource == milestone on the edge resource >= milestone", f,
             asserts[0].ast if asserts else None, "")
-    mr = [n for n in cfg.nodes if n.kind == "stmt" and isinstance(n.ast, ast.Assign) and U(n.ast.targets[0]) == "milestone_reached"
+    d0 = None
+    for r in returns_of(f):
+        d0 = dict_items(r.value) or d0
+    mrn = U(d0["milestone_reached"]) if d0 and "milestone_reached" in d0 else "?"
+    mr = [n for n in cfg.nodes if n.kind == "stmt" and isinstance(n.ast, ast.Assign) and U(n.ast.targets[0]) == mrn
           and isinstance(n.ast.value, ast.Constant) and n.ast.value.value is True]
     ok = len(mr) == 1 and bool(asserts) and cfg.path(cfg.entry, mr[0].id, deleted={asserts[0].id}) is None
     rep.put(ok, "S3", "must_precede", "PromotionRungSystem.on_task_report: milestone_reached only after the exact-level assert", f, None, "")
     d = None
     for r in returns_of(f):
         d = dict_items(r.value) or d
-    ok = d is not None and U(d.get("task_continues")) == "not milestone_reached"
+    ok = d is not None and U(d.get("task_continues")) == f"not {mrn}"
     rep.put(ok, "S3", "agreement", "PromotionRungSystem.on_task_report: task_continues == not milestone_reached", f, None, "",
             "a trial does not pause exactly when it reaches its milestone")
-    ms = [d_ for d_ in local_defs(f, "milestone") if not isinstance(d_, tuple)]
+    ms = [d_ for d_ in local_defs(f, mv) if not isinstance(d_, tuple)]
     ok = len(ms) == 1 and U(ms[0]) == "self._running[trial_id]['milestone']"
     rep.put(ok, "S3", "agreement", "PromotionRungSystem.on_task_report: the milestone is the one recorded for this run of the trial", f, None, "")
 
@@ -175,7 +195,8 @@ def s4(ctx, rep):
     rep.put(ok, "S4", "agreement", "PromotionRungSystem.on_task_schedule scans self._rungs (highest level first)", f, loops[0] if loops else None, "")
     cfg = cfg_of(f)
     head = [n.id for n in cfg.nodes if n.kind == "for"][0]
-    hit = [n.id for n in cfg.nodes if n.kind == "stmt" and isinstance(n.ast, ast.Assign) and "result" == U(n.ast.value)
+    hv = var_from_call(f, "_find_promotable_trial")
+    hit = [n.id for n in cfg.nodes if n.kind == "stmt" and isinstance(n.ast, ast.Assign) and hv == U(n.ast.value)
            and isinstance(n.ast.targets[0], ast.Tuple)]
     ok = bool(hit) and cfg.path([s for s, l in cfg.succ[hit[0]]], head, skip_labels=("exc",)) is None
     rep.put(ok, "S4", "must_follow", "PromotionRungSystem.on_task_schedule: the scan stops at the first rung with a promotable trial", f, None, "")
@@ -183,7 +204,8 @@ def s4(ctx, rep):
     cg = cfg_of(g)
     lp = [n for n in cg.nodes if n.kind == "for"]
     ok = len(lp) == 1 and "enumerate(rung.data)" == U(lp[0].ast.iter)
-    res = [n.id for n in cg.nodes if n.kind == "stmt" and isinstance(n.ast, ast.Assign) and isinstance(n.ast.value, ast.Tuple) and "pos" in U(n.ast.value)]
+    res = [n.id for n in cg.nodes if n.kind == "stmt" and isinstance(n.ast, ast.Assign) and isinstance(n.ast.value, ast.Tuple)
+           and len(n.ast.value.elts) == 2 and "trial_id" in U(n.ast.value.elts[0])]
     ok = ok and bool(res) and cg.path([s for s, l in cg.succ[res[0]]], lp[0].id, skip_labels=("exc",)) is None
     rep.put(ok, "S4", "must_follow", "PromotionRungSystem._find_promotable_trial: first promotable entry in rank order (best first) wins", g, None, "")
     r = P.method("Rung", "__init__")
@@ -194,18 +216,23 @@ def s4(ctx, rep):
 def s5(ctx, rep, clause="S5"):
     P = ctx.P
     f = P.method("PromotionRungSystem", "_find_promotable_trial")
-    sd = [d for d in local_defs(f, "sign") if not isinstance(d, tuple)]
+    sgn = [n_ for n_ in {x.id for x in ast.walk(f.node) if isinstance(x, ast.Name)}
+           if any(not isinstance(d, tuple) and parity.is_sign(d) is not None for d in local_defs(f, n_))]
+    cut = var_from_call(f, "quantile")
+    mvl = vars_assigned_from(f, lambda v: isinstance(v, ast.Attribute) and v.attr == "metric_val")
+    sd = [d for d in local_defs(f, sgn[0]) if not isinstance(d, tuple)] if sgn else []
     k = parity.is_sign(sd[0]) if len(sd) == 1 else None
-    cmpn = [x for x in walk_shallow(f.node) if isinstance(x, ast.Compare) and "sign" in U(x) and "cutoff" in U(x)]
+    sname, mname = (sgn[0] if sgn else "?"), (mvl[0] if mvl else "?")
+    cmpn = [x for x in walk_shallow(f.node) if isinstance(x, ast.Compare) and sname in U(x) and (cut or "?") in U(x)]
     ok = k is not None and len(cmpn) == 1
     why = "sign is not a mode-derived factor that flips with the mode"
     if ok:
         c = cmpn[0]
         # sign * (metric - cutoff) < 0  rejects; with sign = -1 for min (k = -1): metric - cutoff > 0 rejects for min
         l = c.left
-        ok = isinstance(l, ast.BinOp) and isinstance(l.op, ast.Mult) and "sign" in (U(l.left), U(l.right)) and U(c.comparators[0]) == "0"
-        other = l.right if U(l.left) == "sign" else l.left
-        ok = ok and isinstance(other, ast.BinOp) and isinstance(other.op, ast.Sub) and U(other.left) == "metric_val" and U(other.right) == "cutoff"
+        ok = isinstance(l, ast.BinOp) and isinstance(l.op, ast.Mult) and sname in (U(l.left), U(l.right)) and U(c.comparators[0]) == "0"
+        other = l.right if U(l.left) == sname else l.left
+        ok = ok and isinstance(other, ast.BinOp) and isinstance(other.op, ast.Sub) and U(other.left) == mname and U(other.right) == cut
         # direction: min (k) : reject iff k*(m - c) < 0 ; must be "m > c" => k = -1 ; strictness: equality is not rejected
         ok = ok and isinstance(c.ops[0], ast.Lt) and k == -1
         why = f"`{U(c)}` with sign={k} under min"
@@ -233,15 +260,19 @@ def s6(ctx, rep):
                 st[0].ast if st else None, "", "a promoted/new trial is not told to run exactly to its next rung level")
     g = P.method("PromotionRungSystem", "on_task_add")
     cg = cfg_of(g)
-    asserts = [n for n in cg.nodes if n.kind == "stmt" and isinstance(n.ast, ast.Assert) and ("lt", "resume_from", "milestone") in atoms_of(n.ast.test, True)]
     st = [n for n in cg.nodes if n.kind == "stmt" and isinstance(n.ast, ast.Assign) and U(n.ast.targets[0]) == "self._running[trial_id]"]
-    ok = len(asserts) == 1 and len(st) == 1
+    ok = len(st) == 1
     if ok:
         d = dict_items(st[0].ast.value)
-        ok = d is not None and U(d.get("milestone")) == "milestone" and U(d.get("resume_from")) == "resume_from"
+        ok = d is not None and "milestone" in d and "resume_from" in d
+        msn, rfn = (U(d["milestone"]), U(d["resume_from"])) if ok else ("?", "?")
+        asserts = [n for n in cg.nodes if n.kind == "stmt" and isinstance(n.ast, ast.Assert) and ("lt", rfn, msn) in atoms_of(n.ast.test, True)]
+        ok = ok and len(asserts) == 1 and any("kwargs['milestone']" in U(x) for x in local_defs(g, msn) if not isinstance(x, tuple)) and \
+            any("kwargs['resume_from']" in U(x) for x in local_defs(g, rfn) if not isinstance(x, tuple))
     rep.put(ok, "S6", "agreement", "PromotionRungSystem.on_task_add records {milestone, resume_from} with resume_from < milestone", g, None, "")
     h = P.method("HyperbandScheduler", "_promote_trial")
-    ok = any(isinstance(x, ast.Call) and fn_name(x) == "on_task_add" and "terminator" in U(x.func.value) and U(x.args[0]) == "trial_id"
+    tidv = var_from_call(h, "on_task_schedule", 0)
+    ok = any(isinstance(x, ast.Call) and fn_name(x) == "on_task_add" and "terminator" in U(x.func.value) and U(x.args[0]) == tidv
              for x in walk_shallow(h.node))
     rep.put(ok, "S6", "must_reach", "HyperbandScheduler._promote_trial registers the resumed run with the rung system", h, None, "")
 
@@ -254,7 +285,8 @@ def s7(ctx, rep):
     lv = [a for a in ctx.facts(f).at(calls[0][0]) if a[0] == "lt" and a[2] == "self._effective_max_t()"] if calls else []
     if ok:
         ds = [U(d) for d in local_defs(f, lv[0][1]) if not isinstance(d, tuple)]
-        ok = ds == ["_rung.level"]
+        lvn = [U(n.target) for n in walk_shallow(f.node) if isinstance(n, ast.For) and U(n.iter) == "self._rungs"]
+        ok = bool(lvn) and ds == [f"{lvn[0]}.level"]
     rep.put(ok, "S7", "guarded_by", "PromotionRungSystem.on_task_schedule: promotion from a rung only if its level < effective max_t", f,
             calls[0][1] if calls else None, "", "a trial can be promoted beyond the (current) maximum resource")
     b = P.method("PromotionRungSystem", "_effective_max_t")
@@ -284,8 +316,9 @@ def s8(ctx, rep):
     sites = ctx.calls_in(f, method="get_config", recv="BaseSearcher")
     if not sites:
         raise AnchorError("FIFOScheduler._suggest: searcher.get_config not found")
+    ptv = var_from_call(f, "_promote_trial", 0)
     for nid, c in sites:
-        ok = ctx.has_fact(f, nid, lambda a: a[0] == "is" and a[1] == "promote_trial_id" and a[2] == "None" and a[3] is True)
+        ok = ctx.has_fact(f, nid, lambda a: a[0] == "is" and a[1] == ptv and a[2] == "None" and a[3] is True)
         rep.put(ok, "S8", "guarded_by", "FIFOScheduler._suggest: a new configuration is requested only when no trial is promoted", f, c, "")
     cfg = cfg_of(f)
     pr = ctx.nodes(f, ctx.sel_call(selfcall="_promote_trial"), "must", 0)
@@ -293,7 +326,7 @@ def s8(ctx, rep):
     rep.put(ok, "S8", "must_precede", "FIFOScheduler._suggest: _promote_trial is consulted before the searcher", f, None, "")
     # and a resume suggestion is produced exactly on the other edge
     rs = [n.id for n in cfg.nodes if any(isinstance(x, ast.Call) and fn_name(x) == "resume_suggestion" for x in cfg.node_walk(n.id))]
-    ok = bool(rs) and all(ctx.has_fact(f, n, lambda a: a[0] == "is" and a[1] == "promote_trial_id" and a[3] is False) for n in rs)
+    ok = bool(rs) and all(ctx.has_fact(f, n, lambda a: a[0] == "is" and a[1] == ptv and a[3] is False) for n in rs)
     rep.put(ok, "S8", "guarded_by", "FIFOScheduler._suggest: resume suggestion exactly when a trial is promoted", f, None, "")
 
 
